@@ -7,12 +7,10 @@ package workflow
 // abstract-step harnesses and serves C09 (the result of a healthy chain does not depend on scheduling).
 
 import (
-	"go.arcalot.io/dgraph"
 	"go.flow.arcalot.io/engine/config"
 	"go.flow.arcalot.io/engine/internal/step"
 	"go.flow.arcalot.io/engine/internal/step/plugin"
 	"go.flow.arcalot.io/engine/internal/verifrt"
-	"go.flow.arcalot.io/pluginsdk/schema"
 )
 
 type vRealStep struct {
@@ -24,61 +22,95 @@ type vRealStep struct {
 func verifPrepareReal(steps []vRealStep, outputs map[string]any) *executableWorkflow {
 	var specs []VerifStep
 	for _, s := range steps {
-		rn, err := plugin.VerifProvider(s.env).LoadSchema(map[string]any{"plugin": map[string]any{"src": "image", "deployment_type": "builtin"}}, nil)
-		verifrt.Assert(err == nil, "harness: LoadSchema of the real provider succeeds")
-		specs = append(specs, VerifStep{ID: s.id, Runnable: rn, RunData: map[string]any{"step": "wait"}, Fields: s.fields})
+		fields := map[string]any{"step": "wait"}
+		for k, v := range s.fields {
+			fields[k] = v
+		}
+		specs = append(specs, VerifStep{ID: s.id, Provider: plugin.VerifProvider(s.env), Fields: fields})
 	}
 	return verifPrepareRunnables(specs, outputs)
 }
 
-// VerifStep describes one step of a composition harness: a real (or stub) runnable step, the run data
-// its Lifecycle()/Start() get, and the step's fields in the workflow (expressions or literals).
+// VerifStep describes one step of a composition harness: the real provider that loads it (each step may
+// have its own instance, e.g. with its own stub deployer) or an already loaded runnable step plus the
+// provider it belongs to, and the step's fields in the workflow (expressions or literals).
 type VerifStep struct {
 	ID       string
-	Runnable step.RunnableStep
-	RunData  map[string]any
+	Provider step.Provider     // LoadSchema of this provider is called by Prepare (unless Runnable is set)
+	Runnable step.RunnableStep // a runnable step loaded by the harness (Provider is still needed for its kind)
 	Fields   map[string]any
 }
 
-// verifPrepareRunnables builds the prepared workflow the way Prepare does from the runnables' real
-// lifecycles: stage nodes, dependency wiring (real connectStepDependencies / prepareDependencies), outputs.
+// vDispatchProvider is what the step registry returns for a kind: the kind's static data come from one of
+// the steps' providers, LoadSchema is dispatched to the provider (or prebuilt runnable) of the step whose id
+// the template carries in its provider property.
+type vDispatchProvider struct {
+	step.Provider
+	byID map[string]VerifStep
+}
+
+func (p *vDispatchProvider) LoadSchema(inputs map[string]any, ctx map[string][]byte) (step.RunnableStep, error) {
+	id := ""
+	for _, v := range inputs {
+		switch m := v.(type) {
+		case map[any]any:
+			if s, ok := m["verif_step_id"].(string); ok {
+				id = s
+			}
+		case map[string]any:
+			if s, ok := m["verif_step_id"].(string); ok {
+				id = s
+			}
+		case string:
+			if _, known := p.byID[m]; known {
+				id = m
+			}
+		}
+	}
+	st, ok := p.byID[id]
+	verifrt.Assert(ok, "harness: the step id is carried by the provider property")
+	if st.Runnable != nil {
+		return st.Runnable, nil
+	}
+	return st.Provider.LoadSchema(map[string]any{"plugin": map[string]any{"src": "image", "deployment_type": "builtin"}}, ctx)
+}
+
+type vKindRegistry struct {
+	step.Registry
+	kinds map[string]*vDispatchProvider
+}
+
+func (r *vKindRegistry) GetByKind(kind string) (step.Provider, error) {
+	if p, ok := r.kinds[kind]; ok {
+		return p, nil
+	}
+	return nil, &verifrt.Err{Msg: "unknown kind " + kind}
+}
+
+// verifPrepareRunnables: the REAL Prepare over real providers / runnable steps.
 func verifPrepareRunnables(steps []VerifStep, outputs map[string]any) *executableWorkflow {
-	e := &executor{logger: vLogger{}, config: &config.Config{}}
-	dag := dgraph.New[*DAGItem]()
-	_, err := dag.AddNode(WorkflowInputKey, &DAGItem{Kind: DAGItemKindInput})
-	verifrt.Assert(err == nil, "harness: input node added")
-	wf := &Workflow{Steps: map[string]any{}, Outputs: outputs}
-	runnables := map[string]step.RunnableStep{}
-	lifecycles := map[string]step.Lifecycle[step.LifecycleStageWithSchema]{}
-	runData := map[string]map[string]any{}
+	reg := &vKindRegistry{kinds: map[string]*vDispatchProvider{}}
+	wf := &Workflow{Input: map[any]any{}, Steps: map[string]any{}, Outputs: outputs}
 	for _, s := range steps {
-		data := map[any]any{}
+		kind := s.Provider.Kind()
+		d := reg.kinds[kind]
+		if d == nil {
+			d = &vDispatchProvider{Provider: s.Provider, byID: map[string]VerifStep{}}
+			reg.kinds[kind] = d
+		}
+		d.byID[s.ID] = s
+		data := map[any]any{"kind": kind}
+		for prop := range s.Provider.ProviderSchema() {
+			// the provider property carries the step id (the dispatcher replaces it by the real one)
+			data[prop] = map[any]any{"verif_step_id": s.ID}
+		}
 		for k, v := range s.Fields {
 			data[k] = v
 		}
 		wf.Steps[s.ID] = data
-		life, err := s.Runnable.Lifecycle(s.RunData)
-		verifrt.Assert(err == nil, "harness: real Lifecycle() succeeds")
-		runnables[s.ID] = s.Runnable
-		lifecycles[s.ID] = life
-		runData[s.ID] = s.RunData
-		_, err = e.buildOutputProperties(life, s.ID, s.Runnable, dag)
-		verifrt.Assert(err == nil, "harness: stage nodes added")
 	}
-	err = e.connectStepDependencies(wf, nil, lifecycles, dag, nil)
-	verifrt.Assert(err == nil, "harness: template accepted by connectStepDependencies")
-	outSchemas := map[string]*schema.StepOutputSchema{}
-	for outputID, outputData := range wf.Outputs {
-		os := schema.NewStepOutputSchema(verifEmptyScope(outputID), nil, outputID == "error")
-		outSchemas[outputID] = os
-		item := &DAGItem{Kind: DAGItemKindOutput, OutputID: outputID, Data: outputData, OutputSchema: os}
-		node, err := dag.AddNode(item.String(), item)
-		verifrt.Assert(err == nil, "harness: output node added")
-		err = e.prepareDependencies(nil, outputData, node, []string{}, nil, dag)
-		verifrt.Assert(err == nil, "harness: output dependencies accepted")
-	}
-	return &executableWorkflow{logger: vLogger{}, config: &config.Config{}, dag: dag, input: &vScope{},
-		stepRunData: runData, runnableSteps: runnables, lifecycles: lifecycles, outputSchema: outSchemas}
+	e := &executor{logger: vLogger{}, config: &config.Config{}, stepRegistry: reg}
+	return verifRealPrepare(e, wf)
 }
 
 // ---- exported entry points for composition harnesses that live in the step packages
